@@ -578,6 +578,8 @@ Enabled(s, a) ==
          [] a.act \in {"RxDisconnect", "RxEvent", "RxAck", "RxAckDup", "RxRaw"} -> s.eio[a.t] = "open" /\ ~Has(s.binbuf, a.t)
          [] a.act = "RxFrame" -> /\ s.eio[a.t] = "open"
                                  /\ (a.kind \in {"hdr", "hdrbad"} => ~Has(s.binbuf, a.t))
+                                 \* a text frame while attachments are owed (it is taken for one)
+                                 /\ (a.kind = "text" => Has(s.binbuf, a.t))
                                  \* budget: attachments buffered for one packet
                                  /\ (a.kind = "att" /\ Has(s.binbuf, a.t) => Len(s.binbuf[a.t].atts) < 3)
          [] a.act = "Emit" -> a.cb # "" => \A x \in DOMAIN s.cb : s.cb[x].next <= MaxAck
